@@ -7,12 +7,13 @@ EXTENDS CsrBankContract, Json, IOUtils
 T == JsonDeserialize(IOEnv.TRACES)
 VARIABLES tid, l, envbad
 vars == <<tid, l, envbad, first, exp, stg, rd, bsel, owe, obs>>
-C == T[tid].cfg
+K == [i \in 1..Len(T) |-> Ext(T[i].cfg)]         \* evaluated once (constant)
+C == K[tid]
 Init == /\ tid \in 1..Len(T) /\ l = 1 /\ envbad = FALSE /\ CInit(C)
 (* legality of a recorded stimulus: G-mode schedules come from Inputs; long runs (cfg.free = 1)
    may combine any bus operation with any device-side values of the declared alphabets *)
 Legal(c, iv) ==
-  IF "free" \in DOMAIN c /\ c.free = 1
+  IF c.free = 1
   THEN /\ Len(iv) = 3 + NR(c)
        /\ iv[1] \in 0..2 /\ iv[2] \in Adrs(c) /\ iv[3] >= 0 /\ (c.w < 31 => iv[3] < 2^c.w)
        /\ \A r \in 1..NR(c) : iv[3 + r] = 0 \/ iv[3 + r] \in DvSet(c, r)
